@@ -143,6 +143,21 @@ impl<'a> BlockFiltersProcess<'a> {
                     let errmsg = "cached block filter hashes is empty";
                     return StatusCode::Ignore.with_context(errmsg);
                 }
+                // The cached block filter hashes come from a single peer, they are tied to the
+                // finalized check points only when the whole interval is cached (its last hash
+                // has been compared with the next check point).
+                if cached_block_filter_hashes.len() as BlockNumber
+                    != next_cached_check_point_number - cached_check_point_number
+                {
+                    let errmsg = format!(
+                        "cached block filter hashes ({},{}] are incomplete (length: {}), \
+                         they could not be used to check block filters",
+                        cached_check_point_number,
+                        next_cached_check_point_number,
+                        cached_block_filter_hashes.len()
+                    );
+                    return StatusCode::Ignore.with_context(errmsg);
+                }
                 if start_number == cached_check_point_number + 1 {
                     let cached_check_point = self
                         .filter
